@@ -327,6 +327,12 @@ import math as _math
 _REAL_FUNCS = {'exp': _math.exp}     # the only function whose axioms (exp > 0, exp(x) exp(-x) = 1) an arbitrary interpretation cannot satisfy
 
 
+# job option real_ufs: sin, cos, tanh, atan (created only by the libm stubs, so they denote the true functions) are
+# evaluated with their true values in NUMERIC point evaluation as well (needed when a path's assumptions tie them together)
+REAL_UFS = [False]
+_REAL_EXTRA = {'sin': _math.sin, 'cos': _math.cos, 'tanh': _math.tanh, 'atan': _math.atan, 'log': _math.log}
+
+
 def _uf_value(name, argv):
     import hashlib
     h = int.from_bytes(hashlib.sha256((name + repr(argv)).encode()).digest()[:4], 'little')
@@ -395,11 +401,11 @@ def evaluate_all(roots, env, approx=False):
                     if rn < 0 or rn * rn != f.numerator or rd * rd != f.denominator:
                         raise KeyError('irrational sqrt')
                     v = Fraction(rn, rd)
-            elif t.args[0] in _REAL_FUNCS:
+            elif t.args[0] in _REAL_FUNCS or (REAL_UFS[0] and t.args[0] in _REAL_EXTRA):
                 # functions constrained by axioms (exp x exp(-x) = 1, sin^2 + cos^2 = 1, ...): only their true values satisfy them
                 if not approx:
                     raise KeyError('transcendental value')
-                v = _REAL_FUNCS[t.args[0]](*[float(x) for x in a])
+                v = (_REAL_FUNCS.get(t.args[0]) or _REAL_EXTRA[t.args[0]])(*[float(x) for x in a])
             else:
                 v = _uf_value(t.args[0], tuple(a))
                 if approx:
